@@ -316,6 +316,18 @@ def entry_frame(e, std=2020):
         if k == 'cd':
             return bytes([0x85, e[1]]) + (e[2] or b'') if 0 <= e[1] <= 0x7F else None
         if k == 'lc':
+            fixed = {9600, 19200, 38400, 57600, 115200, 125000, 250000, 500000, 1000000}
+            ids = {1, 2, 3, 4, 5, 0x10, 0x11, 0x12, 0x13}
+            ct, rate, ty = e[1], e[2], e[3]
+            if ct in (1, 2):
+                if rate is None or (ty == 'f' and rate not in fixed) or (ty == 'i' and not 0 <= rate <= 0xFF) or (ty == 's' and not 0 <= rate <= 0xFFFFFF):
+                    return None
+                if ct == 1 and ty == 's' and rate not in fixed:
+                    return None
+                if ct == 2 and ty == 'i' and rate not in ids:
+                    return None
+            elif rate is not None:
+                return None
             return bytes([0x87, e[1]])   # data irrelevant for replies
         if k == 'rc':
             return bytes([0x31, e[2]]) + e[1].to_bytes(2, 'big') + (e[3] or b'') if 0 <= e[1] <= 0xFFFF else None
